@@ -48,6 +48,9 @@ func runC16(c *core.Ctx) {
 	// their meaning): with a low weight for cuts and drops most downloads finish while stalls, aborts,
 	// concurrent downloads and queued requests are still in play
 	faultW := []int{10, 3, 1}[(steps+concurrent)%3]
+	if faultW == 1 {
+		steps *= 3 // low fault intensity: a long phase in which downloads complete while stalls are still active
+	}
 	// queueAhead: the next request is added while the current one is still in progress
 	queueAhead := (steps+nBlocks)%2 == 0
 	req.Plan = func(n int) string { return "ok" }
@@ -331,6 +334,24 @@ func runC16(c *core.Ctx) {
 				}
 			}
 		}
+		// several downloads of one block finishing in the same instant (two peers deliver the last bytes
+		// together): every fully fed, still open stream ends now
+		var ready []*bw.Source
+		for _, s := range srcs {
+			if s.Started && !s.Ended && !s.Returned && !s.Cancelled {
+				if b := serving[s]; b != nil && s.Fed >= len(b.Txs) {
+					ready = append(ready, s)
+				}
+			}
+		}
+		if len(ready) >= 2 {
+			acts = append(acts, action{fmt.Sprintf("all %d fully fed sources end their streams", len(ready)), func() {
+				c.Probe("downloads-finish-in-the-same-instant")
+				for _, s := range ready {
+					endStream(s)
+				}
+			}})
+		}
 		if faulty && cur != nil && len(cur.signals) == 0 && !cur.aborted && cur.abort != nil {
 			acts = append(acts, action{"requester aborts", func() {
 				if cur.aborted {
@@ -547,7 +568,7 @@ func init() {
 		Assumptions: []string{"interleavings are controlled at the granularity of source/requester/timer actions; between two quiescent points woken goroutines run in the Go runtime's order and a select with several ready cases is resolved by the runtime (not replayable from the tape); the oracles are order independent",
 			"a requester stops listening when shutdown is signalled, as NodeManager.synchronizeBlocks does"},
 		FaultKinds:   []string{"source:stream-stalls-mid-block", "source:request-ignored", "source:connection-closed", "fragmentation", "schedule:goroutine-stalled", "source:not-available", "source:wrong-block", "source:drop-before-start", "source:stream-cut", "source:drop-mid-block", "request:abort", "shutdown", "source:drop-during-shutdown", "source:drop-after-cancel", "stalled-goroutine-released"},
-		ProbeNames:   []string{"full-stack-block-served", "full-stack-terminal:completed", "full-stack-terminal:value:Block Aborted", "two-successful-downloads-of-one-block", "two-successful-downloads-with-another-request-queued", "terminal:completed", "terminal:value:Block Aborted", "abort-acknowledged", "abort-and-shutdown-same-instant", "two-actions-same-instant", "handler-start-and-shutdown-same-instant", "run-with-stalled-goroutines"},
+		ProbeNames:   []string{"downloads-finish-in-the-same-instant", "full-stack-block-served", "full-stack-terminal:completed", "full-stack-terminal:value:Block Aborted", "two-successful-downloads-of-one-block", "two-successful-downloads-with-another-request-queued", "terminal:completed", "terminal:value:Block Aborted", "abort-acknowledged", "abort-and-shutdown-same-instant", "two-actions-same-instant", "handler-start-and-shutdown-same-instant", "run-with-stalled-goroutines"},
 		Run:          runC16,
 		QuickSeconds: 20, ThoroughSeconds: 700, MinRuns: 300, BatchSize: 25, RunTimeoutSeconds: 300,
 		FQuickSeconds: 15, FThoroughSeconds: 500, MemLimitMB: 3072,
